@@ -6,6 +6,7 @@ package main
 import (
 	"fmt"
 	"go/types"
+	"math/big"
 	"strings"
 
 	"golang.org/x/tools/go/ssa"
@@ -35,8 +36,15 @@ func init() {
 	modelTable["fmt.Fprintln"] = nop2
 	modelTable["strings.TrimSpace"] = strUF("strings.TrimSpace", true)
 	modelTable["strings.ToLower"] = strUF("strings.ToLower", false)
+	modelTable["strings.Trim"] = strUF2("strings.Trim")
+	modelTable["strings.TrimLeft"] = strUF2("strings.TrimLeft")
+	modelTable["strings.TrimRight"] = strUF2("strings.TrimRight")
+	modelTable["strings.TrimPrefix"] = strUF2("strings.TrimPrefix")
+	modelTable["strings.TrimSuffix"] = strUF2("strings.TrimSuffix")
 	modelTable["strings.ToUpper"] = strUF("strings.ToUpper", false)
 	modelTable["path/filepath.ToSlash"] = toSlash
+	initStrconvModels()
+	initBuilderModels()
 	initBigModels()
 }
 
@@ -83,9 +91,93 @@ func sprintfModel(e *Engine, st *State, fr *Frame, callee *ssa.Function, args []
 			}
 		}
 	}
+	if callee.Name() == "Sprintf" {
+		if r, ok := sprintfConcat(e, st, callee, args); ok {
+			return []Val{{r}}
+		}
+	}
 	r := Fresh("sprintf", SInt)
 	e.fact(st, Le(IntC(0), r))
 	return []Val{{r}}
+}
+
+// sprintfConcat handles formats made of literal text and %s / %d / %v verbs whose arguments are
+// strings or ints: the result is the concatenation (ints through the decimal text function itoa).
+func sprintfConcat(e *Engine, st *State, callee *ssa.Function, args []Val) (*Term, bool) {
+	f, ok := strOf(args[0][0])
+	if !ok {
+		return nil, false
+	}
+	n, ok := st.norm(args[1][2]).ConstInt()
+	if !ok || n > 6 {
+		return nil, false
+	}
+	var anyT types.Type = types.NewInterfaceType(nil, nil)
+	if ps := callee.Signature.Params(); ps.Len() >= 2 {
+		if sl, ok := ps.At(ps.Len() - 1).Type().Underlying().(*types.Slice); ok {
+			anyT = sl.Elem()
+		}
+	}
+	var pieces []*Term
+	argi := int64(0)
+	lit := ""
+	for i := 0; i < len(f); i++ {
+		if f[i] != '%' {
+			lit += string(f[i])
+			continue
+		}
+		if i+1 >= len(f) {
+			return nil, false
+		}
+		i++
+		switch f[i] {
+		case '%':
+			lit += "%"
+		case 's', 'd', 'v':
+			if argi >= n {
+				return nil, false
+			}
+			if lit != "" {
+				pieces = append(pieces, internStr(lit))
+				lit = ""
+			}
+			el := e.load(st, &Loc{Prefix: "[]" + typeName(anyT) + "|", Keys: []*Term{args[1][0], Add(args[1][1], IntC(argi))}}, anyT)
+			argi++
+			tag, isC := st.norm(el[0]).ConstInt()
+			if !isC || tag == 0 {
+				return nil, false
+			}
+			switch bt := typeByID[tag].Underlying().(type) {
+			case *types.Basic:
+				switch {
+				case bt.Info()&types.IsString != 0 && f[i] != 'd':
+					pieces = append(pieces, el[1])
+				case bt.Info()&types.IsInteger != 0 && f[i] != 's':
+					it := App("itoa", SInt, el[1])
+					e.fact(st, Le(IntC(0), it))
+					e.fact(st, Le(IntC(1), strLen(it)))
+					pieces = append(pieces, it)
+				default:
+					return nil, false
+				}
+			default:
+				return nil, false
+			}
+		default:
+			return nil, false
+		}
+	}
+	if argi != n {
+		return nil, false
+	}
+	if lit != "" {
+		pieces = append(pieces, internStr(lit))
+	}
+	r := internStr("")
+	for _, p := range pieces {
+		r = e.strcat(st, r, p)
+	}
+	return r, true
 }
 
 func strUF(name string, shrinks bool) modelFn {
@@ -103,10 +195,51 @@ func strUF(name string, shrinks bool) modelFn {
 		}
 		r := App(smtName(name), SInt, s)
 		e.fact(st, Le(IntC(0), r))
+		if name == "strings.TrimSpace" {
+			// nothing is trimmed when the first and last bytes are ASCII and not white space
+			ns := func(b *Term) *Term {
+				return And(Lt(b, IntC(128)), Ne(b, IntC(32)), Or(Lt(b, IntC(9)), Lt(IntC(13), b)))
+			}
+			e.fact(st, Implies(And(Lt(IntC(0), strLen(s)), ns(strByte(s, IntC(0))), ns(strByte(s, Sub(strLen(s), IntC(1))))), Eq(r, s)))
+		}
 		if shrinks {
 			e.fact(st, Le(strLen(r), strLen(s)))
 		} else {
 			e.fact(st, Eq(strLen(r), strLen(s)))
+		}
+		return []Val{{r}}
+	}
+}
+
+// strUF2: two-string-argument trimming functions: a deterministic result no longer than the input.
+func strUF2(name string) modelFn {
+	return func(e *Engine, st *State, fr *Frame, callee *ssa.Function, args []Val, at ssa.Instruction) []Val {
+		a, b := args[0][0], args[1][0]
+		if av, ok := strOf(a); ok {
+			if bv, ok := strOf(b); ok {
+				switch name {
+				case "strings.Trim":
+					return []Val{{internStr(strings.Trim(av, bv))}}
+				case "strings.TrimLeft":
+					return []Val{{internStr(strings.TrimLeft(av, bv))}}
+				case "strings.TrimRight":
+					return []Val{{internStr(strings.TrimRight(av, bv))}}
+				case "strings.TrimPrefix":
+					return []Val{{internStr(strings.TrimPrefix(av, bv))}}
+				case "strings.TrimSuffix":
+					return []Val{{internStr(strings.TrimSuffix(av, bv))}}
+				}
+			}
+		}
+		r := App(smtName(name), SInt, a, b)
+		e.fact(st, Le(IntC(0), r))
+		e.fact(st, Le(strLen(r), strLen(a)))
+		// Trim(c + x + c, c) == x when the single-character cutset c does not occur in x
+		if cut, ok := strOf(b); ok && len(cut) == 1 && name == "strings.Trim" && a.Op == "app" && a.Name == "strcat" && len(a.Args) == 2 && a.Args[1] == b &&
+			a.Args[0].Op == "app" && a.Args[0].Name == "strcat" && a.Args[0].Args[0] == b {
+			x := a.Args[0].Args[1]
+			bv := BVar("i", SInt)
+			e.fact(st, Implies(Forall([]*Term{bv}, Implies(And(Le(IntC(0), bv), Lt(bv, strLen(x))), Ne(Select(App("strbytes", ArrSort(SInt), x), bv), IntC(int64(cut[0]))))), Eq(r, x)))
 		}
 		return []Val{{r}}
 	}
@@ -241,5 +374,182 @@ func initBigModels() {
 		r := App("decimal_text", SInt, bigGet(st, args[0][0]))
 		e.fact(st, Le(IntC(0), r))
 		return []Val{{r}}
+	}
+}
+
+// ---------------------------------------------------------------- strconv (assumed contracts)
+// Itoa/Atoi, FormatBool, FormatFloat/ParseFloat: texts are uninterpreted except for the facts the
+// package documents: Atoi(Itoa(i)) == i, ParseFloat(FormatFloat(f,'f',-1,64),64) == f, a decimal
+// integer text starts with '-' or a digit and is neither "true" nor "false", FormatBool gives
+// "true"/"false". Constant arguments are computed.
+
+func initStrconvModels() {
+	modelTable["strconv.FormatBool"] = func(e *Engine, st *State, fr *Frame, callee *ssa.Function, args []Val, at ssa.Instruction) []Val {
+		return []Val{{Ite(args[0][0], internStr("true"), internStr("false"))}}
+	}
+	modelTable["strconv.Itoa"] = func(e *Engine, st *State, fr *Frame, callee *ssa.Function, args []Val, at ssa.Instruction) []Val {
+		i := st.norm(args[0][0])
+		if c, ok := i.ConstInt(); ok {
+			return []Val{{internStr(fmt.Sprint(c))}}
+		}
+		r := App("itoa", SInt, i)
+		e.fact(st, Le(IntC(0), r))
+		e.fact(st, Le(IntC(1), strLen(r)))
+		b0 := strByte(r, IntC(0))
+		e.fact(st, Or(Eq(b0, IntC('-')), And(Le(IntC('0'), b0), Le(b0, IntC('9')))))
+		e.fact(st, Ne(r, internStr("true")))
+		e.fact(st, Ne(r, internStr("false")))
+		e.fact(st, App("atoi_ok", SBool, r))
+		e.fact(st, Eq(App("atoi_val", SInt, r), i))
+		// every byte is '-' or a digit; the last one is a digit
+		bv := BVar("i", SInt)
+		bt := Select(App("strbytes", ArrSort(SInt), r), bv)
+		e.fact(st, Forall([]*Term{bv}, Implies(And(Le(IntC(0), bv), Lt(bv, strLen(r))), Or(Eq(bt, IntC('-')), And(Le(IntC('0'), bt), Le(bt, IntC('9')))))))
+		bl := strByte(r, Sub(strLen(r), IntC(1)))
+		e.fact(st, And(Le(IntC('0'), bl), Le(bl, IntC('9'))))
+		return []Val{{r}}
+	}
+	modelTable["strconv.Atoi"] = func(e *Engine, st *State, fr *Frame, callee *ssa.Function, args []Val, at ssa.Instruction) []Val {
+		s := st.norm(args[0][0])
+		if v, ok := strOf(s); ok {
+			n, err := parseDecimal(v)
+			if err {
+				return []Val{{IntC(0)}, freshError(e, st, fr, callee, args, at)[0]}
+			}
+			return []Val{{BigC(n)}, {IntC(0), IntC(0)}}
+		}
+		okT := App("atoi_ok", SBool, s)
+		val := App("atoi_val", SInt, s)
+		e.fact(st, inRange(val, types.Typ[types.Int]))
+		errv := freshError(e, st, fr, callee, args, at)[0]
+		return []Val{{Ite(okT, val, IntC(0))}, {Ite(okT, IntC(0), errv[0]), Ite(okT, IntC(0), errv[1])}}
+	}
+	modelTable["strconv.FormatFloat"] = func(e *Engine, st *State, fr *Frame, callee *ssa.Function, args []Val, at ssa.Instruction) []Val {
+		f := st.norm(args[0][0])
+		r := App("fmtfloat", SInt, f, args[1][0], args[2][0], args[3][0])
+		e.fact(st, Le(IntC(0), r))
+		e.fact(st, Le(IntC(1), strLen(r)))
+		e.fact(st, Ne(r, internStr("true")))
+		e.fact(st, Ne(r, internStr("false")))
+		// round trip for the shortest 'f' format of a finite value
+		e.fact(st, Implies(App("float_finite", SBool, f), And(App("parsefloat_ok", SBool, r), Eq(App("parsefloat_val", SInt, r), f))))
+		// an integral value is printed without a fractional part, i.e. as a decimal integer text
+		e.fact(st, Implies(And(App("float_finite", SBool, f), App("float_integral", SBool, f)), App("atoi_ok", SBool, r)))
+		fin := App("float_finite", SBool, f)
+		// shape of the 'f' format of a finite value: digits, '-' and '.', starting with '-' or a
+		// digit and ending with a digit
+		bv := BVar("i", SInt)
+		bt := Select(App("strbytes", ArrSort(SInt), r), bv)
+		e.fact(st, Implies(fin, Forall([]*Term{bv}, Implies(And(Le(IntC(0), bv), Lt(bv, strLen(r))),
+			Or(Eq(bt, IntC('-')), Eq(bt, IntC('.')), And(Le(IntC('0'), bt), Le(bt, IntC('9'))))))))
+		b0 := strByte(r, IntC(0))
+		bl := strByte(r, Sub(strLen(r), IntC(1)))
+		e.fact(st, Implies(fin, And(Or(Eq(b0, IntC('-')), And(Le(IntC('0'), b0), Le(b0, IntC('9')))), Le(IntC('0'), bl), Le(bl, IntC('9')))))
+		// a decimal integer text followed by ".0" is not an integer text and denotes the same number
+		r2 := e.strcat(st, r, internStr(".0"))
+		e.fact(st, Implies(And(fin, App("atoi_ok", SBool, r)), And(Not(App("atoi_ok", SBool, r2)), App("parsefloat_ok", SBool, r2), Eq(App("parsefloat_val", SInt, r2), f))))
+		return []Val{{r}}
+	}
+	modelTable["strconv.ParseFloat"] = func(e *Engine, st *State, fr *Frame, callee *ssa.Function, args []Val, at ssa.Instruction) []Val {
+		s := st.norm(args[0][0])
+		okT := App("parsefloat_ok", SBool, s)
+		val := App("parsefloat_val", SInt, s)
+		e.fact(st, Le(IntC(0), val))
+		errv := freshError(e, st, fr, callee, args, at)[0]
+		return []Val{{val}, {Ite(okT, IntC(0), errv[0]), Ite(okT, IntC(0), errv[1])}}
+	}
+}
+
+func parseDecimal(s string) (*big.Int, bool) {
+	if s == "" {
+		return nil, true
+	}
+	t := s
+	if t[0] == '+' || t[0] == '-' {
+		t = t[1:]
+	}
+	if t == "" || len(t) > 18 {
+		return nil, true
+	}
+	for i := 0; i < len(t); i++ {
+		if t[i] < '0' || t[i] > '9' {
+			return nil, true
+		}
+	}
+	n, ok := new(big.Int).SetString(s, 10)
+	return n, !ok
+}
+
+// ---------------------------------------------------------------- strings.Builder (assumed contract)
+// A Builder is modelled by the string it has accumulated (ghost "strings.Builder|$str"[ref]).
+
+// The accumulated text is kept in the struct's own first word (the otherwise unused `addr`
+// self-pointer), so that it travels with value copies of the struct (e.g. into a specification).
+func builderLoc(e *Engine, st *State, callee *ssa.Function, ref *Term) (*Loc, types.Type) {
+	t := derefType(callee.Signature.Recv().Type())
+	return e.resolvePtr(st, ref, t), t
+}
+
+func builderGetC(e *Engine, st *State, callee *ssa.Function, ref *Term) *Term {
+	l, t := builderLoc(e, st, callee, ref)
+	return st.norm(e.load(st, l, t)[0])
+}
+
+func builderSetC(e *Engine, st *State, callee *ssa.Function, ref, v *Term) {
+	l, t := builderLoc(e, st, callee, ref)
+	old := e.load(st, l, t)
+	nv := append(Val{}, old...)
+	nv[0] = v
+	e.store(st, l, t, nv)
+}
+
+func initBuilderModels() {
+	modelTable["(*strings.Builder).WriteRune"] = func(e *Engine, st *State, fr *Frame, callee *ssa.Function, args []Val, at ssa.Instruction) []Val {
+		b, r := args[0][0], args[1][0]
+		var rs *Term
+		if c, ok := r.ConstInt(); ok {
+			rs = internStr(string(rune(c)))
+		} else {
+			rs = App("runestr", SInt, r)
+			e.fact(st, Le(IntC(0), rs))
+			e.fact(st, And(Le(IntC(1), strLen(rs)), Le(strLen(rs), IntC(4))))
+		}
+		builderSetC(e, st, callee, b, e.strcat(st, builderGetC(e, st, callee, b), rs))
+		return []Val{{strLen(rs)}, {IntC(0), IntC(0)}}
+	}
+	modelTable["(*strings.Builder).WriteString"] = func(e *Engine, st *State, fr *Frame, callee *ssa.Function, args []Val, at ssa.Instruction) []Val {
+		b, s := args[0][0], args[1][0]
+		builderSetC(e, st, callee, b, e.strcat(st, builderGetC(e, st, callee, b), s))
+		return []Val{{strLen(s)}, {IntC(0), IntC(0)}}
+	}
+	modelTable["(*strings.Builder).WriteByte"] = func(e *Engine, st *State, fr *Frame, callee *ssa.Function, args []Val, at ssa.Instruction) []Val {
+		b, c := args[0][0], args[1][0]
+		var cs *Term
+		if k, ok := c.ConstInt(); ok && k < 128 {
+			cs = internStr(string(rune(k)))
+		} else {
+			cs = App("bytestr", SInt, c)
+			e.fact(st, Le(IntC(0), cs))
+			e.fact(st, Eq(strLen(cs), IntC(1)))
+		}
+		builderSetC(e, st, callee, b, e.strcat(st, builderGetC(e, st, callee, b), cs))
+		return []Val{{IntC(0), IntC(0)}}
+	}
+	modelTable["(*strings.Builder).String"] = func(e *Engine, st *State, fr *Frame, callee *ssa.Function, args []Val, at ssa.Instruction) []Val {
+		r := builderGetC(e, st, callee, args[0][0])
+		if !r.IsConst() {
+			e.fact(st, Le(IntC(0), r))
+		}
+		return []Val{{r}}
+	}
+	modelTable["(*strings.Builder).Len"] = func(e *Engine, st *State, fr *Frame, callee *ssa.Function, args []Val, at ssa.Instruction) []Val {
+		return []Val{{strLen(builderGetC(e, st, callee, args[0][0]))}}
+	}
+	modelTable["(*strings.Builder).Reset"] = func(e *Engine, st *State, fr *Frame, callee *ssa.Function, args []Val, at ssa.Instruction) []Val {
+		builderSetC(e, st, callee, args[0][0], internStr(""))
+		return nil
+	}
+	for _, n := range []string{"WriteRune", "WriteString", "WriteByte", "Reset"} {
+		modelWrites["(*strings.Builder)."+n] = "strings.Builder|"
 	}
 }
